@@ -851,6 +851,9 @@ func ruleConstantAccessorGuard(c *Ctx, rule string, short string) {
 			for p := ast.Node(call); p != nil && !ok2; p = parent[p] {
 				switch x := parent[p].(type) {
 				case *ast.CaseClause:
+					if len(x.List) == 0 {
+						break // a default arm establishes no category
+					}
 					if sw, ok := parent[parent[x]].(*ast.SwitchStmt); ok {
 						tag := ast.Node(sw.Tag)
 						if id, isId := sw.Tag.(*ast.Ident); isId {
